@@ -341,6 +341,12 @@ def run_prog(case):
     except Exception as ex:
         return {"status": "refused", "counters": {"refusals": 1}, "sets": {"refusal_kinds": [f"prog:{type(ex).__name__}:{str(ex)[:40]}"]}}
     v = b.out_pd
+    from vmon.checks.c17 import _has_nonstring_object_column
+
+    if _has_nonstring_object_column(v.pd):
+        # dask treats every object column as strings (convert-string), by documented design; an object column holding bools or
+        # numbers (outer concat of frames with and without the column) is stringified
+        return {"status": "undecided", "counters": {"nonstring_object_column": 1}}
     d = compare(got, v.pd, order=v.order, index=v.index, dtypes=False)
     rec = {"status": "ok", "counters": {"random_programs_compared": 1}, "nt": [shash(prog)] if any(c.npartitions > 1 for c in b.src_dx) else []}
     if d:
